@@ -189,6 +189,8 @@ CURATED = [
     ("unknown_sym", mk_ast([rule("S", [R("zz", 3)])], [("a", "a")])),
     ("opt_with_sep", mk_ast([rule("S", [R("a", 1, False, "b")])], [("a", "a"), ("b", "b")])),
     ("rule_is_terminal", mk_ast([rule("S", [R("a")]), rule("a", [R("b")])], [("a", "a"), ("b", "b")])),
+    ("greedy_rr", mk_ast([rule("S", [G([[R("a", 1, True), R("x", 3)]], 2, True), R("x", 1), R("x")])],
+                         [("a", "a")], ["x"])),
     ("shadow_g", mk_ast([rule("S", [R("a", 3, True), R("a_1_g")]), rule("a_1_g", [R("b")])],
                         [("a", "a"), ("b", "b")])),
 ]
@@ -542,6 +544,14 @@ def _worker(job):
             ps_p, r["cs"], _ = _build(texts["s"], "glr" if kind == "glr" else "lr", ps, False)
             pe_p, r["ce"], ge = _build(texts["e"], "glr" if kind == "glr" else "lr", ps, True)
             gi_e = impl.GInfo(ge) if ge is not None else None
+            if kind == "glr" and ps_p is not None:
+                # a greedy helper's EMPTY production takes part in a reduce/reduce conflict
+                # (associativity only settles shift/reduce conflicts)
+                try:
+                    r["greedy_rr"] = any(any(pr.assoc == 2 and len(pr.rhs) == 0 for pr in c.productions)
+                                         for c in ps_p.table.rr_conflicts)
+                except BaseException:  # noqa
+                    r["greedy_rr"] = False
             png_p = None
             if "ng" in gs and kind == "glr":
                 png_p, r["cng"], _ = _build(texts["ng"], "glr", ps, False)
@@ -1027,7 +1037,13 @@ def run(ctx):
                         st["greedy_maxmunch_checked"] += 1
                         want = json.dumps(evals_e[b1])
                         if not (len(s[1]) == 1 and json.dumps(s[1][0]) == want):
-                            if excused:
+                            if want in msort(s[1]) and rr.get("greedy_rr") and ng and ng[0] == "ok" \
+                                    and msort(ng[1]) == pool_e:
+                                finding("KF-C13-greedy-not-maximal",
+                                        "greedy repetition whose element can start with an empty match: GLR "
+                                        "returns non-maximal trees too (e.g. %s on %r)"
+                                        % (" ".join(rec["text_s"].split())[:70], w))
+                            elif excused:
                                 finding(excused, "language/results differ from the documented expansion")
                             else:
                                 ctx.violation("greedy: expected the single maximal-munch result %s, got %s"
